@@ -106,8 +106,10 @@ class Overlay:
         st = Setup(sr, u)
         if layer_kind == 'physshared':
             sr.do('fs PH phys')        # all layers are directories of ONE PhysicalFS instance (same-fs fast paths apply)
+        if layer_kind == 'memsub':
+            sr.do('fs PH mem')         # all layers are sub-directories of ONE MemoryFS: a layer root is not a filesystem root
         for i in range(nlayers):
-            if layer_kind == 'physshared':
+            if layer_kind in ('physshared', 'memsub'):
                 sr.do('join L%d PH %s' % (i, hx(('layer%d' % i).encode())))
                 sr.do('create_dir L%d' % i)
             else:
